@@ -564,6 +564,68 @@ func runInstrAlias(p *core.Prog) *core.Result {
 			}
 		})
 	}
+	// every instruction type that carries an `extensible` flag installs a *fresh* names map on the
+	// extensible edge in its own exec (a helper shared with non-extensible kinds cannot know)
+	for _, f := range p.Funcs {
+		if f.Name() != "exec" || f.Signature.Recv() == nil || !types.Implements(f.Signature.Recv().Type(), iface) {
+			continue
+		}
+		rt := core.NamedOf(f.Params[0].Type())
+		if rt == nil {
+			continue
+		}
+		st, ok := rt.Underlying().(*types.Struct)
+		if !ok {
+			continue
+		}
+		var extField *types.Var
+		hasNames := false
+		for i := 0; i < st.NumFields(); i++ {
+			if st.Field(i).Name() == "extensible" {
+				extField = st.Field(i)
+			}
+			if st.Field(i).Name() == "names" {
+				hasNames = true
+			}
+			if st.Field(i).Embedded() {
+				if es, ok := st.Field(i).Type().Underlying().(*types.Struct); ok {
+					for j := 0; j < es.NumFields(); j++ {
+						if es.Field(j).Name() == "names" {
+							hasNames = true
+						}
+					}
+				}
+			}
+		}
+		if extField == nil || !hasNames {
+			continue
+		}
+		key := core.FuncName(f) + ":fresh-names-when-extensible"
+		found := false
+		core.AllInstrs(f, func(in ssa.Instruction) {
+			st, ok := in.(*ssa.Store)
+			if !ok {
+				return
+			}
+			fa, ok := st.Addr.(*ssa.FieldAddr)
+			if !ok || core.FieldOf(fa) != fNames {
+				return
+			}
+			if _, isMake := st.Val.(*ssa.MakeMap); !isMake {
+				return
+			}
+			for _, cp := range core.ControllingConds(in.Block()) {
+				if ld, ok := cp.Cond.(*ssa.UnOp); ok && ld.Op == token.MUL && core.FieldOf(ld.X) == extField && cp.Pol {
+					found = true
+				}
+			}
+		})
+		if found {
+			res.OK(key, p.Pos(f.Pos()), "a map made in exec is installed when extensible")
+		} else {
+			res.Bad(key, p.Pos(f.Pos()), "this instruction can enter a scope that gains bindings at run time (extensible) but its exec never installs a fresh names map on that edge: a direct eval declaring a var then writes into the map owned by the shared Program (wrong slot indexes in later runs, data race across Runtimes)")
+		}
+	}
 	res.Count("names_flows", nFlows)
 	res.Assume("stash.createBinding/createLexBinding/deleteBinding are only applied to the global stash or to stashes selected by isVariable(): block and catch stashes share the Program's names map unconditionally")
 
